@@ -475,7 +475,25 @@ func (fs *FuncSpec) addClause(t, file string, ln int) error {
 			if err != nil {
 				return err
 			}
-			ls.Invariants = append(ls.Invariants, c)
+			// a conjunction is checked conjunct by conjunct (smaller, more stable queries)
+			var parts []Expr
+			var flat func(e Expr)
+			flat = func(e Expr) {
+				if b, ok := e.(*EBin); ok && b.Op == "&&" {
+					flat(b.L)
+					flat(b.R)
+					return
+				}
+				parts = append(parts, e)
+			}
+			flat(c.E)
+			if len(parts) == 1 {
+				ls.Invariants = append(ls.Invariants, c)
+			} else {
+				for _, pe := range parts {
+					ls.Invariants = append(ls.Invariants, &Clause{Kind: "invariant", Tags: c.Tags, Text: exprString(pe), E: pe, File: file, Line: ln})
+				}
+			}
 		case "assume":
 			c, err := mk("assume", body)
 			if err != nil {
